@@ -11,6 +11,8 @@ from clikit.api.formatter import Style
 from clikit.api.io import IO
 from clikit.utils._compat import decode
 
+from .exception_trace import _literal
+
 
 class Aborted(RuntimeError):
     """
@@ -130,7 +132,8 @@ class Question(object):
         """
         Outputs an error message.
         """
-        message = "<error>{}</error>".format(decode(str(error)))
+        # What was typed is text, not markup
+        message = "<error>{}</error>".format(_literal(decode(str(error)), "error"))
 
         io.error_line(message)
 
